@@ -80,10 +80,10 @@ class Ref:
 
 
 class Closure:
-    __slots__ = ('span', 'f', 'env')
+    __slots__ = ('span', 'f', 'env', 'dup')
 
-    def __init__(s, span, f, env=None):
-        s.span, s.f, s.env = span, f, env
+    def __init__(s, span, f, env=None, dup=0):
+        s.span, s.f, s.env, s.dup = span, f, env, dup
 
     def __repr__(s):
         return f'Closure@{s.span}'
@@ -268,6 +268,12 @@ def copy_val(v):
     return v
 
 
+def _dup_of(name):
+    """index of a numbered duplicate (macro-expanded items share a name: f, f#1, f#2 ...)"""
+    m = re.search(r'#(\d+)$', name)
+    return int(m.group(1)) if m else 0
+
+
 def is_sym(v):
     return isinstance(v, z3.ExprRef)
 
@@ -357,8 +363,10 @@ class Engine:
             s.by_name.setdefault(name, []).append(f)
             if f.params:
                 m = re.search(r'\{closure@([^}]*)\}', f.params[0][1])
-                if m and re.search(r'\{closure#\d+\}$', name):
-                    s.by_span[_span_key(m.group(1))] = f
+                md = re.search(r'\{closure#\d+\}(?:#(\d+))?$', name)
+                if m and md:
+                    # macro-expanded functions share spans: one closure body per numbered duplicate of the enclosing function
+                    s.by_span.setdefault(_span_key(m.group(1)), {})[int(md.group(1) or 0)] = f
         s.impl_index = None
 
     def lookup(s, name, crate=None):
@@ -588,9 +596,10 @@ class Engine:
         while isinstance(f, Ref):
             f = f.get()
         if isinstance(f, Closure):
-            fn = s.by_span.get(_span_key(f.span))
-            if fn is None:
+            cands = s.by_span.get(_span_key(f.span))
+            if not cands:
                 raise Unsupported(f'closure body not found for span {f.span}')
+            fn = cands.get(getattr(f, 'dup', 0)) or cands[min(cands)]
             # first parameter is the closure itself, by value or by reference
             pty = fn.params[0][1]
             selfarg = Ref([f], 0) if pty.startswith('&') else f
@@ -1251,7 +1260,7 @@ class Compiler:
         m = re.match(r'^ZeroSized: \{closure@([^}]*)\}', c)
         if m:
             span = m.group(1)
-            return lambda fr: Closure(span, [], fr.env)
+            return lambda fr: Closure(span, [], fr.env, _dup_of(fn.name))
         if c.startswith('ZeroSized: '):
             name = c[len('ZeroSized: '):]
             return lambda fr: FnItem(name, fr.env)
@@ -1546,7 +1555,7 @@ class Compiler:
                 for f in split_top(m.group(2).strip()):
                     ops.append(s.c_operand(f.split(': ', 1)[1]))
             span = m.group(1)
-            return lambda fr: Closure(span, [o(fr) for o in ops], fr.env)
+            return lambda fr: Closure(span, [o(fr) for o in ops], fr.env, _dup_of(s.fn.name))
         if rv == 'RangeFull' or rv.endswith('::RangeFull'):
             return lambda fr: Adt('RangeFull', None, [])
         # struct aggregate  Path { a: x, b: y }
